@@ -4,6 +4,7 @@
 #include "verif.hpp"
 #include "refs.hpp"
 #include "node_access.hpp"
+#include "access.hpp"
 
 #include "ephemeralnet/network/SessionManager.hpp"
 #include "ephemeralnet/protocol/Message.hpp"
@@ -23,6 +24,8 @@
 #include <thread>
 #include <unistd.h>
 
+VERIF_ACCESS_MEMBER(SmListenSocket, ephemeralnet::network::SessionManager, listen_socket_, ephemeralnet::network::SessionManager::SocketHandle)
+
 namespace verif {
 const PropertyInfo kInfo = {
     "C14", 12, 4, 30,
@@ -38,7 +41,7 @@ const PropertyInfo kInfo = {
     "raw peer reads not one extra byte up to EOF; send(<= 1 MiB) on a working session returns true; every frame read by the raw peer is "
     "nonce(12)|be32(len)|ChaCha20(key,nonce,ctr 0,payload) with pairwise distinct nonces (handshake ACK frame included); after an oversized length the raw "
     "peer sees EOF/RST, is_connected is false at that instant and the handler was not called; a session that ends on its own (nobody closed it) while accepted "
-    "payloads are undelivered is a violation, a session that is up but slow (15 s) is inconclusive. Non-trivial: an idle gap above 2 s, a size within +-1 of 1 MiB, or >= 3 sends "
+    "payloads are undelivered is a violation, a session that is up but slow (15 s) is inconclusive. Non-trivial: a stalled receiver under ten back-to-back 1 MiB sends (two-manager mode, 1/40), an idle gap above 2 s, a size within +-1 of 1 MiB, or >= 3 sends "
     "back-to-back in one direction, or an oversized raw frame. Distinct = hash of the decoded case."};
 
 namespace {
@@ -95,8 +98,10 @@ struct Inbox {
         std::lock_guard<std::mutex> l(m);
         return msgs.size();
     }
+    std::atomic<int> stall_first_ms{0};   // the first delivery blocks the reader thread this long (a slow consumer)
     SessionManager::MessageHandler handler() {
         return [this](const TransportMessage& msg) {
+            if (int s = stall_first_ms.exchange(0)) std::this_thread::sleep_for(milliseconds(s));
             std::lock_guard<std::mutex> l(m);
             msgs.emplace_back(msg.peer_id, msg.payload);
             cv.notify_all();
@@ -314,6 +319,7 @@ struct Case {
     bool with_handshake = true;
     unsigned hs_split = 0;
     std::vector<Op> ops;
+    bool slow_receiver = false;
     bool has_edge = false, has_exact = false, has_over_send = false, has_oversized_frame = false, burst3 = false, both_dirs = false;
 };
 
@@ -390,6 +396,24 @@ Case decode(Ctx& c) {
         c.note("|%s %zu +%uus%s", op.reverse ? "<" : ">", size, op.gap_us, raw_in && op.split ? (op.split == 1 ? " split-hdr" : op.split == 2 ? " hdr|body" : " dribble") : "");
     }
     k.both_dirs = seen[0] && seen[1];
+    // Back-pressure (two SessionManagers, one case in forty): the receiving handler stalls for 6 s on its first delivery (its sockets get a fixed 16 KiB receive buffer)
+    // while the sender pushes ten payloads of about 1 MiB back-to-back -- more than the loopback socket buffers hold, so
+    // send() has to wait for the receiver.  Everything accepted must still arrive, once and in order.
+    if (t.h(6) % 40 == 0 && k.mode != kConcurrent) {
+        k.mode = kPair;
+        k.slow_receiver = true;
+        k.ops.clear();
+        for (unsigned i = 0; i < 10; ++i) {
+            Op op;
+            op.reverse = false;
+            op.gap_us = 0;
+            op.seed = t.h32(4) + i;
+            op.size = kMiB - 7 * i - (t.h(7) % 64);
+            k.ops.push_back(op);
+        }
+        k.both_dirs = false;
+        c.note("|slow-receiver: 10 x ~1 MiB");
+    }
     return k;
 }
 
@@ -504,6 +528,10 @@ void run_pair(Ctx& c, const Case& k) {
     SessionManager a(k.id_a), b(k.id_b);
     a.set_message_handler(in_a.handler());
     b.set_message_handler(in_b.handler());
+    if (k.slow_receiver) {
+        in_b.stall_first_ms = 6000;
+        c.nt("slow_receiver_backpressure");
+    }
     Bytes ack = k.expect_ack ? signed_ack(k.key, true) : Bytes{};
     b.set_handshake_handler([&](const PeerId&, const protocol::TransportHandshakePayload&) {
         SessionManager::HandshakeAcceptance acc;
@@ -518,6 +546,13 @@ void run_pair(Ctx& c, const Case& k) {
         b.start(0);
     } catch (const std::exception&) {
         throw Inconclusive{"inconclusive_setup"};
+    }
+    if (k.slow_receiver) {
+        // a small fixed receive buffer on B's listening socket (accepted sockets inherit it, and a fixed size switches the
+        // kernel's window auto-tuning off): while B's handler stalls, A's blocked send() then makes no progress at all
+        int fd = static_cast<int>(verif_access(b, SmListenSocket{}));
+        int sz = 16384;
+        ::setsockopt(fd, SOL_SOCKET, SO_RCVBUF, &sz, sizeof sz);
     }
     a.register_peer_key(k.id_b, k.key);
     SessionManager::OutboundHandshake hs{};
